@@ -218,7 +218,7 @@ Section main.
         - injection Eo as <-. exact Hsubs. }
       cbv zeta in E.
       destruct (fst own) as [|x [|y l]].
-      + injection E as <-. cbn [snd]. apply inside_RE; [|exact Hown]. destruct top; [intros m [<-|[]]; apply nmark_in | intros m []].
+      + injection E as <-. cbn [snd]. apply inside_RE; [|exact Hown]. destruct (top || is_nil (snd own)); [intros m [<-|[]]; apply nmark_in | intros m []].
       + destruct (negb (uprefix core_prefix (ntag n))).
         * destruct (class_of_tag reg (ntag n)) as [kt|].
           -- destruct (ty_mem _ _); injection E as <-; [apply inside_ok | apply inside_leaf].
